@@ -558,6 +558,16 @@ func findInitialBasic(A mat.Matrix, b []float64) ([]int, *mat.Dense, []float64, 
 	c := make([]float64, n+1)
 	c[n] = 1
 
+	// The basis of the Phase I problem is singular when x_j is zero in exact
+	// arithmetic and only negative through rounding in the solve above (a
+	// degenerate vertex). simplex panics when it is given such a basis, so
+	// report the numerical failure here.
+	abNew := mat.NewDense(m, m, nil)
+	extractColumns(abNew, aNew, basicIdxs)
+	if err := initializeFromBasic(make([]float64, m), abNew, b); err != nil {
+		return nil, nil, nil, ErrLinSolve
+	}
+
 	// Solve the Phase I linear program.
 	_, xOpt, newBasic, err := simplex(basicIdxs, c, aNew, b, 1e-10)
 	if err != nil {
